@@ -738,3 +738,40 @@ def _array_len(fn, op, at, depth):
                 return int(m.group(1))
             return _array_len(fn, {'c': rv['p']}, pos, depth + 1)
     return None
+
+
+# ----------------------------------------------------------------- wrappers (Min et al.: a wrapper "is" the operation)
+def wrappers_of(F, base_keys, max_rounds=4):
+    """paths of local functions that *are* the base operation for their callers: every Ok exit is the result of, or is
+    dominated by the success edge of, a call to a base function or to another wrapper (fixpoint). Returns {path: depth}."""
+    cache = getattr(F, '_wrappers', None)
+    if cache is None:
+        cache = F._wrappers = {}
+    ck = tuple(base_keys)
+    if ck in cache:
+        return cache[ck]
+    base = {f.path for k in base_keys for f in ([F.fn(k)] if F.fn(k) is not None else [])}
+    wr = {}
+    for rnd in range(max_rounds):
+        added = False
+        for f in F.fns.values():
+            if f.path in wr or f.path in base or f.is_closure or not f.returns_result():
+                continue
+            calls = [c for c in f.calls() if c.local_callee in base or c.local_callee in wr]
+            if not calls:
+                continue
+            exits = f.ok_exits()
+            if exits and all(ex.get('call') in calls or any(call_success_dominates(f, c, ex['bb']) for c in calls) for ex in exits):
+                wr[f.path] = rnd + 1
+                added = True
+        if not added:
+            break
+    cache[ck] = wr
+    return wr
+
+
+def op_calls(F, fn, base_keys, max_wrapper_depth=1):
+    """calls in fn to a base function or to a *thin* wrapper of it (wrapper depth <= max_wrapper_depth)"""
+    wr = wrappers_of(F, base_keys)
+    base = {f.path for k in base_keys for f in ([F.fn(k)] if F.fn(k) is not None else [])}
+    return [c for c in fn.calls() if c.local_callee in base or wr.get(c.local_callee, 99) <= max_wrapper_depth]
